@@ -145,7 +145,14 @@ fn platform_name(sig: i32) -> Option<String> {
 
 pub fn run(_tier: Tier) -> BResult {
     let mut sigs: Vec<i32> = (1..=64).collect();
-    sigs.extend([0, -1, 65, 1000]);
+    sigs.extend([0, -1, 65, 1000, 128, 255, 256, i32::MAX, i32::MIN]);
+    // out-of-range numbers that are congruent to a known signal modulo a power of two (a table keyed by a
+    // narrower integer type, or an index computed with a mask, would find an entry for them)
+    for k in [256i32, 512, 1 << 16, 1 << 24, -256, -(1 << 16), i32::MIN] {
+        for s in [libc::SIGTERM, libc::SIGTSTP, libc::SIGWINCH, libc::SIGKILL, libc::SIGSTOP, libc::SIGCHLD] {
+            sigs.push(k.wrapping_add(s));
+        }
+    }
     // cells: (sig, ctx, emulated?)  ctx 0 normal, 1 inside own action (blocked), 2 inside after unblocking
     let mut cells: Vec<(i32, usize, bool)> = Vec::new();
     for &s in &sigs {
@@ -220,6 +227,10 @@ pub fn run(_tier: Tier) -> BResult {
         if samples.len() < 4 && i % 37 == 0 {
             samples.push(case.clone());
         }
+        if let (Some(name), true) = (known, s < 1 || s > 64) {
+            violations.push(BViolation { message: format!("C16: signal_name({}) = {} although {} is not a signal number of this platform; emulate_default_handler returned {} and the process {}", s, name, s, ret, class), case: case.clone() });
+            continue;
+        }
         match known {
             Some(_) if c == 4 => {
                 if class != "continues" {
@@ -259,7 +270,7 @@ pub fn run(_tier: Tier) -> BResult {
         violations,
         exhaustive: true,
         caps: vec![],
-        rule: "complete grid: signal 1..64 + {0,-1,65,1000} x context {normal, inside own action blocked, inside own action unblocked, delivery under register_conditional_default with the condition true / false; for signals without a known name also: blocked with one instance pending under an application handler / the default disposition, comparing mask, pending set, disposition and handler runs before and after}; each cell = an emulated child compared with a native child (SIG_DFL, unblock, raise) classified by waitpid(WUNTRACED) in a constructed non-orphaned process group; distinct = distinct (outcome class, return value, known?) tuples".into(),
+        rule: "complete grid: signal 1..64 + out-of-range numbers {0,-1,65,128,255,256,1000,MIN,MAX} + {256,512,2^16,2^24,-256,-2^16,MIN} + {TERM,TSTP,WINCH,KILL,STOP,CHLD} x context {normal, inside own action blocked, inside own action unblocked, delivery under register_conditional_default with the condition true / false; for signals without a known name also: blocked with one instance pending under an application handler / the default disposition, comparing mask, pending set, disposition and handler runs before and after}; each cell = an emulated child compared with a native child (SIG_DFL, unblock, raise) classified by waitpid(WUNTRACED) in a constructed non-orphaned process group; distinct = distinct (outcome class, return value, known?) tuples".into(),
         assumptions: vec!["the kernel's default disposition is observed, not tabulated".into(), "core dumps disabled in probes (RLIMIT_CORE=0)".into(), "KILL/STOP only from normal context; signals 32/33 (libc-internal) have no native probe".into()],
     }
 }
